@@ -167,6 +167,26 @@ def search(ctx):
                 if not ok and nm not in seen:
                     seen.add(nm)
                     fails.append({'function': nm, 'input': inp, 'tag': None, 'what': exc or 'tools.%s and laue.%s disagree' % (nm, nm), 'replay': nm})
+        # sysabs / sysabs_unique: every setting x a box of hkl (exhaustive on the box)
+        from xfab import sg as _sg
+        H = ctx.n(3, 6)
+        box = [(h, k, l) for h in range(-H, H + 1) for k in range(-H, H + 1) for l in range(-H, H + 1)]
+        for no in range(1, 231):
+            for ch in ('standard', 'rhombohedral'):
+                s_ = _sg.sg(sgno=no, cell_choice=ch)
+                if ch == 'rhombohedral' and s_.cell_choice != 'rhombohedral':
+                    continue
+                bad = None
+                for hkl_ in box:
+                    if tools.sysabs(hkl_, s_.syscond, s_.crystal_system, s_.cell_choice) != laue.sysabs(hkl_, s_.syscond, s_.crystal_system, s_.cell_choice) \
+                            or tools.sysabs_unique(hkl_, s_.syscond) != laue.sysabs_unique(hkl_, s_.syscond):
+                        bad = hkl_
+                        break
+                ctx.count(('sysabs-box', no, ch), hist='search:sysabs box per setting')
+                if bad is not None and 'sysabs' not in seen:
+                    seen.add('sysabs')
+                    fails.append({'function': 'sysabs', 'input': {'sgno': no, 'cell_choice': ch, 'hkl': list(bad)}, 'tag': None,
+                                  'what': 'tools.sysabs and laue.sysabs disagree', 'replay': 'sysabs sgno=%d hkl=%r' % (no, bad)})
     finally:
         xfab.CHECKS.activated = old
     common = sorted(n for n, f in vars(tools).items() if inspect.isfunction(f) and f.__module__ == 'xfab.tools' and n in vars(laue))
